@@ -219,6 +219,38 @@ def run(ctx):
             diff = next((a for a, b in zip(got[0], want[0]) if a != b), None) if not isinstance(got, Exn) else got
             fails.append(((body, header), 'a table of %d rows (%d characters) read from a %s file differs from the table, first at %s'
                           % (len(rows), len(body), which, repr(diff)[:300])))
+    # an index reached through a symbolic link named Contents-*.gz whose target has another name (by-hash layouts), and the
+    # plain file likewise; rows beyond 64 KiB (thousands of packages in one row, a column padded with 70000 blanks)
+    rows = table(rng, maxrows=40)
+    rows.append(('usr/share/doc/very-common-file', [(rng.choice(QUALS), 'pkg%d' % i) for i in range(9000)]))
+    rows.append(('usr/bin/after-the-long-row', [('', 'bash')]))
+    text = render(rng, rows, True, False)
+    text += 'usr/lib/padded' + ' ' * 70000 + 'utils/zsh\nusr/lib/last  admin/a\n'
+    rows += [('usr/lib/padded', [('', 'zsh')]), ('usr/lib/last', [('', 'a')])]
+    bp, bk = expected(rows)
+    want = [[[k, v] for k, v in bp.items()], [[k, v] for k, v in bk.items()]]
+    hashdir = os.path.join(files.dir, 'by-hash')
+    os.makedirs(hashdir, exist_ok=True)
+    made = []
+    try:
+        for gz in (True, False):
+            target = files.write(text, gz)
+            t2 = os.path.join(hashdir, '0123abcd%d' % gz)
+            os.rename(target, t2)
+            link = os.path.join(files.dir, 'Contents-amd64' + ('.gz' if gz else ''))
+            os.symlink(t2, link)
+            made += [t2, link]
+            r = call(lambda: to_lists(contents.parse_contents(link, has_header=True)))
+            st['cases'] += 1
+            if r != want:
+                st['prop_failures'] += 1
+                diff = next((a for a, b in zip(r[0], want[0]) if a != b), None) if not isinstance(r, Exn) else r
+                fails.append(((text[:2000], True), 'a table with rows beyond 64 KiB read through a symbolic link (%s) differs from the table, first at %s' % ('gzip' if gz else 'plain', repr(diff)[:300])))
+    finally:
+        for q in made:
+            if os.path.lexists(q):
+                os.unlink(q)
+        os.rmdir(hashdir)
     # malformed / odd lines for the correspondence only
     for i in range(ctx.n(800, 10000)):
         lines = []
